@@ -3,8 +3,9 @@ CONSTANTS MaxN = 4
 Coords <- C2
 CtrlCoords <- C2
 Letters <- LettersZ
-GuardZ = FALSE
-GuardDeg = TRUE
-GuardZeroL = TRUE
+FixZ = FALSE
+FixDeg = TRUE
+FixZeroL = TRUE
+ForgetCp = TRUE
 INVARIANTS Refines InRange
 CHECK_DEADLOCK FALSE
